@@ -2,7 +2,7 @@
    a monitor that fires on an observed step therefore reports a behaviour no execution of the model has.
    c01_mon / c02_mon: A/InvA.v (inv_c01_mon, inv_c02_mon); c13_mon's growth clause: T/GrowthMon.v. Here: the one-entry-per-
    key monitor (C04) and the token ledger (C06). *)
-Require Import LruV.A.MonitorsA LruV.A.InvA LruV.A.LedgerA LruV.A.PanicProps.
+Require Import LruV.A.MonitorsA LruV.A.InvA LruV.A.LedgerA LruV.A.PanicProps LruV.A.CostA LruV.A.SpecA.
 
 Lemma existsb_eqb_in x l : existsb (N.eqb x) l = true <-> In x l.
 Proof. rewrite existsb_exists. split; [intros (y & Hy & E0); apply N.eqb_eq in E0; now subst|intros H; exists x; split; [exact H|apply N.eqb_refl]]. Qed.
@@ -83,5 +83,81 @@ Proof.
   apply perm_eqb_bal. intros y. specialize (Hb y). unfold after. rewrite !cnt_app in *.
   assert (Hlk : leaked s p = []) by (destruct p; try reflexivity; destruct f; [reflexivity|discriminate El]).
   rewrite Hlk in Hb. cbn [cnt count_occ] in Hb. unfold cnt in *. cbn [count_occ] in Hb. lia.
+Qed.
+(* ---------- the hashing-cost monitor (C20) ---------- *)
+Definition kts (l : list entry) : list N := map (fun e => ktok (ek e)) l.
+
+Lemma kts_in_toks l t : In t (kts l) -> In t (all_toks l).
+Proof. induction l as [|e l IH]; cbn [kts map all_toks flat_map toks app]; [tauto|]. intros [<-|Hi]; [now left|right; right; apply IH, Hi]. Qed.
+Lemma kts_nodup l : NoDup (all_toks l) -> NoDup (kts l).
+Proof.
+  induction l as [|e l IH]; cbn [kts map all_toks flat_map toks app]; [constructor|]. intros Hnd.
+  apply NoDup_cons_iff in Hnd as [H1 Hnd]. apply NoDup_cons_iff in Hnd as [_ Hnd]. constructor; [|apply IH, Hnd].
+  intros Hi. apply H1. right. apply kts_in_toks, Hi.
+Qed.
+
+Lemma existsb_ktok t l : existsb (fun e' => ktok (ek e') =? t) l = true <-> In t (kts l).
+Proof.
+  unfold kts. rewrite existsb_exists, in_map_iff. split.
+  - intros (x & Hx & E0). apply N.eqb_eq in E0. eauto.
+  - intros (x & E0 & Hx). exists x. split; [exact Hx|]. now apply N.eqb_eq.
+Qed.
+
+Lemma NoDup_app_intro {A} (a b : list A) : NoDup a -> NoDup b -> (forall x, In x a -> In x b -> False) -> NoDup (a ++ b).
+Proof.
+  induction a as [|x a IH]; intros Ha Hb Hd; cbn [app]; [exact Hb|]. apply NoDup_cons_iff in Ha as [Hx Ha]. constructor.
+  - intros Hi. apply in_app_or in Hi as [Hi|Hi]; [tauto|]. apply (Hd x); [now left|exact Hi].
+  - apply IH; auto. intros y Hy1 Hy2. apply (Hd y); [now right|exact Hy2].
+Qed.
+
+(* the entries of `pre` whose key object is still in `post`, together with k fresh key objects of `post`, fit into `post` *)
+Lemma stayed_le pre post (fresh : list N) :
+  NoDup (kts pre) -> NoDup fresh -> (forall t, In t fresh -> ~ In t (kts pre) /\ In t (kts post)) ->
+  (length (filter (fun e => existsb (fun e' => ktok (ek e') =? ktok (ek e)) post) pre) + length fresh <= length post)%nat.
+Proof.
+  intros Hnd Hnf Hfr.
+  set (A := filter (fun t => existsb (fun e' => ktok (ek e') =? t) post) (kts pre)).
+  assert (HlenA : length A = length (filter (fun e => existsb (fun e' => ktok (ek e') =? ktok (ek e)) post) pre)).
+  { unfold A, kts. clear. induction pre as [|e pre IH]; [reflexivity|]. cbn [map filter]. destruct (existsb _ post); cbn [length]; now rewrite IH. }
+  rewrite <- HlenA, <- app_length. replace (length post) with (length (kts post)) by apply map_length.
+  apply NoDup_incl_length.
+  - apply NoDup_app_intro; [apply NoDup_filter, Hnd|exact Hnf|].
+    intros t Ht1 Ht2. apply filter_In in Ht1 as [Ht1 _]. now destruct (Hfr t Ht2).
+  - intros t Ht. apply in_app_or in Ht as [Ht|Ht]; [apply filter_In in Ht as [_ Ht]; now apply existsb_ktok|now destruct (Hfr t Ht)].
+Qed.
+
+Theorem c20_mon_sound s p o s' out evs : Inv E s -> wf_op E s p -> toks_ok s p ->
+  stepA E VS fixed s p o = Some (s', out, evs) ->
+  c20_mon s p (e_hashes evs) (e_rebuilt evs) s' = true.
+Proof.
+  intros HI Hwf Htok H. destruct (step_cost E VS E_pos VS_le_E s p o s' out evs HI Hwf H) as (C1 & C2 & C3).
+  unfold c20_mon. cbv zeta.
+  change (match p with IterOp _ | DrainOp _ _ | Clear | DebugFmt | PeekLru | PeekMru | GetLru | Len | IsEmpty | CurrentSize | MaxSize | Capacity => true | _ => false end) with (hash_free p).
+  change (match p with Reserve _ | TryReserve _ | ShrinkTo _ | ShrinkToFit | Insert _ _ | TryInsert _ _ => true | _ => false end) with (may_rebuild p).
+  destruct (hash_free p) eqn:Hf; [rewrite (C2 eq_refl); reflexivity|].
+  apply N.leb_le.
+  assert (Hrb : (e_rebuilt evs && may_rebuild p)%bool = e_rebuilt evs) by (destruct (e_rebuilt evs) eqn:Er; [rewrite (C3 eq_refl); reflexivity|reflexivity]).
+  rewrite Hrb.
+  assert (Hndk : NoDup (kts (ents s))).
+  { apply kts_nodup. unfold toks_ok in Htok. now apply NoDup_app_l in Htok. }
+  (* the key objects the operation adds *)
+  assert (Hfresh : exists fresh, N.of_nat (length fresh) = added p out /\ NoDup fresh /\ (forall t, In t fresh -> ~ In t (kts (ents s)) /\ In t (kts (ents s')))).
+  { destruct p; try (exists []; cbn [added length]; split; [now destruct out|]; split; [constructor|intros ? []]).
+    - cbn [stepA wf_op] in H, Hwf. destruct (insert_spec E VS E_pos VS_le_E s k v o _ HI Hwf H) as [[_ Hr]|(_ & evd & rest & t2 & rb & _ & _ & _ & Hr)];
+        injection Hr as -> -> _; [exists []; cbn; split; [reflexivity|split; [constructor|intros ? []]]|].
+      exists [ktok k]. cbn [added length]. split; [reflexivity|]. split; [constructor; [intros []|constructor]|].
+      intros t [<-|[]]. split.
+      + intros Hi. apply kts_in_toks in Hi. unfold toks_ok in Htok. cbn [op_toks] in Htok. apply (nodup_app_disj _ _ (ktok k) Htok); [now left|exact Hi].
+      + cbn [ents set_ents]. unfold kts. rewrite map_app. apply in_or_app. right. now left.
+    - cbn [stepA wf_op] in H, Hwf. destruct (try_insert_spec E VS E_pos VS_le_E s k v o _ HI Hwf H) as [[_ Hr]|[(_ & _ & Hr)|[(_ & _ & Hr)|(_ & _ & t2 & rb & _ & Hr)]]];
+        injection Hr as -> -> _; try (exists []; cbn; split; [reflexivity|split; [constructor|intros ? []]]).
+      exists [ktok k]. cbn [added length]. split; [reflexivity|]. split; [constructor; [intros []|constructor]|].
+      intros t [<-|[]]. split.
+      + intros Hi. apply kts_in_toks in Hi. unfold toks_ok in Htok. cbn [op_toks] in Htok. apply (nodup_app_disj _ _ (ktok k) Htok); [now left|exact Hi].
+      + cbn [ents set_ents]. unfold kts. rewrite map_app. apply in_or_app. right. now left. }
+  destruct Hfresh as (fresh & Hlen & Hnf & Hfr).
+  pose proof (stayed_le (ents s) (ents s') fresh Hndk Hnf Hfr) as Hst.
+  pose proof (length_filter_split (fun e => existsb (fun e' => ktok (ek e') =? ktok (ek e)) (ents s')) (ents s)) as Hsp.
+  unfold len in *. destruct (e_rebuilt evs); lia.
 Qed.
 End Params.
